@@ -1,7 +1,7 @@
 import PdfModel.Model.ContentInline
 
-/-! The terminator search of inline images finds the LF `E` `I` that the writer put after the data, as long
-    as the bytes before it contain no `E` `I` pair (C08, byte level of the `BI … ID … EI` construct). -/
+/-! The terminator search of inline images finds the `EI` that follows the data, whatever white-space byte
+    precedes it, as long as the bytes before it contain no `E` `I` pair (C08, byte level of `BI … ID … EI`). -/
 
 namespace ContentInline
 
@@ -23,31 +23,34 @@ theorem noEI_tail {b : UInt8} {bs : List UInt8} (h : noEI (b :: bs) = true) : no
       exact h
     · rename_i heq; cases heq
 
-theorem startsLfEI_false_of_noEI {bs : List UInt8} (h : noEI bs = true) (tail : List UInt8) :
-    startsLfEI (bs ++ 10 :: 69 :: 73 :: tail) = (bs == []) := by
+theorem ws_ne_EI (w : UInt8) (h : isWs w = true) : w ≠ 69 ∧ w ≠ 73 := by
+  simp only [isWs, Bool.or_eq_true, beq_iff_eq] at h
+  rcases h with ((((rfl | rfl) | rfl) | rfl) | rfl) | rfl <;> decide
+
+theorem startsEI_pre {bs : List UInt8} (h : noEI bs = true) (w : UInt8) (hw : isWs w = true) (tail : List UInt8)
+    (ht : endsToken tail = true) : startsEI (bs ++ w :: 69 :: 73 :: tail) = (bs == []) := by
+  obtain ⟨w69, w73⟩ := ws_ne_EI w hw
   cases bs with
-  | nil => rfl
+  | nil => simp [startsEI, hw, ht]
   | cons b cs =>
     cases cs with
     | nil =>
-      -- b, 10, 69, … : the second byte is LF, not `E`
       simp only [List.cons_append, List.nil_append]
-      unfold startsLfEI
+      unfold startsEI
       split
       · rename_i heq; simp at heq
       · rfl
     | cons c ds =>
       cases ds with
       | nil =>
-        -- b, c, 10, … : the third byte is LF, not `I`
         simp only [List.cons_append, List.nil_append]
-        unfold startsLfEI
+        unfold startsEI
         split
-        · rename_i heq; simp at heq
+        · rename_i heq; simp at heq; exact absurd heq.2.2.1 w73
         · rfl
       | cons d es =>
         simp only [List.cons_append]
-        unfold startsLfEI
+        unfold startsEI
         split
         · rename_i heq
           simp only [List.cons.injEq] at heq
@@ -56,14 +59,14 @@ theorem startsLfEI_false_of_noEI {bs : List UInt8} (h : noEI bs = true) (tail : 
           simp [noEI] at this
         · rfl
 
-theorem findLfEI_append (pre tail : List UInt8) (h : noEI pre = true) :
-    findLfEI (pre ++ 10 :: 69 :: 73 :: tail) = some pre.length := by
+theorem findEI_append (pre tail : List UInt8) (w : UInt8) (hw : isWs w = true) (ht : endsToken tail = true)
+    (h : noEI pre = true) : findEI (pre ++ w :: 69 :: 73 :: tail) = some pre.length := by
   induction pre with
-  | nil => simp [findLfEI, startsLfEI]
+  | nil => simp [findEI, startsEI, hw, ht]
   | cons b pre ih =>
-    have hs := startsLfEI_false_of_noEI h tail
+    have hs := startsEI_pre h w hw tail ht
     simp only [List.cons_append] at hs ⊢
-    rw [findLfEI, hs, ih (noEI_tail h)]
+    rw [findEI, hs, ih (noEI_tail h)]
     simp
 
 end ContentInline
